@@ -12,5 +12,5 @@ export GOROOT_MOQ="$_moq_goroot"
 export PATH="$GOROOT_MOQ/bin:$PATH"
 unset GOROOT
 export GOTOOLCHAIN=local GOPROXY=off GOSUMDB=off GOFLAGS=-mod=mod GOTELEMETRY=off GONOSUMDB=* GONOSUMCHECK=1 GOFLAGS=-mod=mod
-export VERIF_ROOT=/verif
+export VERIF_ROOT="${VERIF_ROOT:-/verif}"
 export VERIF_REPO="${VERIF_REPO:-/repo}"
